@@ -146,6 +146,32 @@ META.update({
         note="S and N operations are outside the claim (folded by the complement)." + B_NOTE,
         technique="bounded check of the link/CIGAR contracts against an independent complement oracle (the algebraic laws are being brought under PyVC contract)",
         assumptions=["CIGAR pool of bounded/c12.py"]),
+    "C14": dict(
+        built=True, bounded=True, level="exploration", tierP=False, min_obligations=0, design="§6 C14",
+        claim=("BOUNDED: seeded GFA1 graphs (2-5 segments with sequences or '*', 1-5 links with self-links, hairpins, branching, cycles; overlaps '*' or match-only): linear_paths equals the reference "
+               "maximal chains (end degrees computed on the text; compared up to reversal / rotation of a cycle); after merge_linear_paths the merged segments spell the reference sequence (overlap-trimmed, "
+               "members oriented by the traversal) with agreeing length, the outward links are those of the reference model (up to reversal of each merged segment), components are preserved, WF holds, "
+               "and merging again changes nothing. The break point of a merged cycle is not pinned."),
+        note="Reference implementation: bounded/c14.py." + B_NOTE,
+        technique="bounded check of linear_paths/merge_linear_paths against a reference implementation on the text",
+        assumptions=["graphs of bounded/c14.py (VERIF_SEED)", "GFA1 graphs only"]),
+    "C15": dict(
+        built=True, bounded=True, level="exploration", tierP=False, min_obligations=0, design="§6 C15",
+        claim=("BOUNDED: seeded GFA1 graphs, target segment named A / A*2 / X*3 with or without counts, 0-5 links and containments (self-links, hairpins), factor -1..4, every distribution policy, given or "
+               "automatic copy names: k-1 fresh distinct copies equal to the original with counts // k; without distribution every edge of the target is copied onto every copy with counts // k; with "
+               "distribution no link is invented, links are removed on one end only (the requested one) and every former neighbour stays linked to some copy; factor 1 changes nothing, factor 0 equals "
+               "removal in the text model, a negative factor is refused without change; the rest of the graph is untouched; WF and UNIQ hold."),
+        note="Reference model: bounded/c15.py. _auto_select_distribute_end is additionally under PyVC contract (contracts/c15.py)." + B_NOTE,
+        technique="bounded check of multiply against a reference model on the text; " + TECH_P + " for the end-selection kernel",
+        assumptions=["graphs of bounded/c15.py (VERIF_SEED)", "GFA1 graphs only"]),
+    "C17": dict(
+        built=True, bounded=True, level="exploration", tierP=False, min_obligations=0, design="§6 C17",
+        claim=("BOUNDED: seeded GFA2 graphs over 4 segments and 1-5 of 7 edges with 1-2 O groups (walks with omitted edges/segments, random item lists, nested groups with +/-) and 0-2 U groups, lines in a "
+               "seeded arrival order: captured_path equals the reference walk (unique fitting edge supplied, segments supplied for edges, nested paths inlined/reversed) or raises NotFound/NotUnique exactly "
+               "when the reference does; induced segment and edge sets equal the reference; multi-line U/O definitions concatenate items in arrival order and unite tags."),
+        note="Degenerate item lists (same edge twice, consecutive parallel edges, a segment repeated after a nested path) are not pinned. Mutually nested groups recurse without bound (not checked)." + B_NOTE,
+        technique="bounded check of group resolution against a reference implementation on the text",
+        assumptions=["graphs of bounded/c17.py (VERIF_SEED)"]),
 })
 
 NOT_BUILT_REASON = "check not built yet at this commit (work in progress; see DESIGN.md §7 priorities)"
